@@ -149,6 +149,14 @@ pub fn random_cfg(rng: &mut impl Rng, profile: &str) -> Cfg {
     if profile == "rtt" && rng.random_range(0..100) < 45 {
         rto = *pick(rng, &[3_000u64, 6_000, 9_000, 300_000, 600_000]);
     }
+    // estimates above one minute: a configured RTO of 25-30 s lets un-retransmitted responses arrive
+    // after up to 20 s (the largest sample the monitor's 32-bit reference follows)
+    let (mut rc, mut rm) = (rc, rm);
+    if profile == "rtt" && rng.random_range(0..100) < 10 {
+        rto = *pick(rng, &[25_000_000u64, 30_000_000]);
+        rc = *pick(rng, &[1u32, 2]);
+        rm = *pick(rng, &[1u32, 2]);
+    }
     let mech = match profile {
         "nomech" | "sched" | "rtt" => "none",
         "st" => "st",
@@ -205,6 +213,9 @@ fn small_dt(rng: &mut impl Rng, d: &Driver) -> TimeSpec {
         // so that two shorter gaps add up to more than ten minutes)
         return TimeSpec::Dt(*pick(rng, &[599_999_999u64, 600_000_000, 600_000_001, 601_000_000, 300_000_000,
                                           350_000_000, 250_000_000]));
+    }
+    if !d.cfg.reliable && d.cfg.rto_us >= 25_000_000 {
+        return TimeSpec::Dt(*pick(rng, &[20_000_000u64, 20_000_000, 19_999_999, 10_000_000, 1000, 1000, 0, 1, 5_000_000]));
     }
     if !d.cfg.reliable && d.cfg.rto_us % 3000 == 0 && rng.random_range(0..100) < 80 {
         // exact fractions of the configured RTO
@@ -345,6 +356,72 @@ pub fn random_hostile(rng: &mut impl Rng) -> Value {
     let kind = *wpick(rng, &[(40, "inject"), (10, "trunc_val"), (10, "rand_val"), (8, "dup"), (12, "bitflip"),
                            (10, "trunc"), (10, "extend")]);
     json!({"kind":kind,"idx":rng.random_range(0..8),"off":rng.random_range(0..64),"s":rng.random_range(0..16)})
+}
+
+/// "wide" profile: a client allowed more outstanding requests than the default (11-16), the table
+/// filled, every request answered by a response whose integrity does not verify (each is marked on an
+/// unreliable transport), a few of them then answered correctly, and all of them driven to their
+/// final outcome. Returns the configuration and the scripted steps.
+pub fn wide_script(rng: &mut impl Rng) -> (Cfg, Vec<Step>) {
+    let mut cfg = random_cfg(rng, "st");
+    cfg.reliable = rng.random_range(0..100) < 20;
+    cfg.mech = "st".to_string();
+    cfg.max_tx = *pick(rng, &[11usize, 12, 13, 16]);
+    cfg.rc = *pick(rng, &[1u32, 2, 3]);
+    cfg.rm = *pick(rng, &[1u32, 2, 4]);
+    cfg.rto_us = *pick(rng, &[20_000u64, 100_000, 500_000]);
+    cfg.gran_us = 1000;
+    let n = cfg.max_tx;
+    let mut steps = Vec::new();
+    for _ in 0..n {
+        steps.push(Step::Send { at: TimeSpec::Dt(rng.random_range(0..=3) * 100), method: 1, app: vec![], buf: 1024 });
+    }
+    // one more than the limit allows
+    steps.push(Step::Send { at: TimeSpec::Dt(10), method: 1, app: vec![], buf: 1024 });
+    let bad = |rng: &mut dyn FnMut() -> u32| if rng() % 2 == 0 { "mi_bad" } else { "sha_bad" };
+    let mut r = || rng.random::<u32>();
+    let marked = if r() % 4 == 0 { n - 1 } else { n };
+    for i in 0..marked {
+        steps.push(Step::Recv { at: TimeSpec::Dt(50), msg: MsgSpec {
+            target: Target::Sent(i + 1), class: if r() % 3 == 0 { 3 } else { 2 }, method: None, code: 420,
+            auth: bad(&mut r).to_string(), fp: "auto".to_string(), lt: json!({}), raw: None, hostile: Value::Null } });
+    }
+    // a few correct answers (they clear the marker and finish the request)
+    for _ in 0..(r() % 3) {
+        steps.push(Step::Recv { at: TimeSpec::Dt(50), msg: MsgSpec {
+            target: Target::Tx((r() % 16) as usize), class: 2, method: None, code: 0,
+            auth: if r() % 2 == 0 { "mi" } else { "sha" }.to_string(), fp: "auto".to_string(), lt: json!({}), raw: None,
+            hostile: Value::Null } });
+    }
+    for _ in 0..(4 * n) {
+        steps.push(Step::Timeout { at: TimeSpec::NextExpiry((r() % 3) as i64) });
+    }
+    (cfg, steps)
+}
+
+/// "bigrtt" profile: configured RTO of 25-30 s and un-retransmitted responses after 0-20 s, so that
+/// the estimate moves above one minute (RFC 6298 puts an optional cap there; the property has none)
+pub fn bigrtt_script(rng: &mut impl Rng) -> (Cfg, Vec<Step>) {
+    let mut cfg = random_cfg(rng, "rtt");
+    cfg.reliable = false;
+    cfg.rto_us = *pick(rng, &[25_000_000u64, 30_000_000]);
+    cfg.rc = *pick(rng, &[1u32, 2]);
+    cfg.rm = *pick(rng, &[1u32, 2]);
+    cfg.max_tx = 3;
+    let mut steps = Vec::new();
+    for _ in 0..rng.random_range(4..=8) {
+        steps.push(Step::Send { at: TimeSpec::Dt(*pick(rng, &[0u64, 1000, 2_000_000])), method: 1, app: vec![], buf: 1024 });
+        if rng.random_range(0..100) < 12 {
+            steps.push(Step::Timeout { at: TimeSpec::NextExpiry(0) });
+        }
+        steps.push(Step::Recv {
+            at: TimeSpec::Dt(*pick(rng, &[20_000_000u64, 20_000_000, 19_999_999, 10_000_000, 1000, 1000, 1, 5_000_000])),
+            msg: MsgSpec { target: Target::Tx(0), class: if rng.random_range(0..4) == 0 { 3 } else { 2 }, method: None, code: 420,
+                           auth: "none".to_string(), fp: "auto".to_string(), lt: json!({}), raw: None, hostile: Value::Null },
+        });
+    }
+    steps.push(Step::Send { at: TimeSpec::Dt(1000), method: 1, app: vec![], buf: 1024 });
+    (cfg, steps)
 }
 
 /// One random step, biased by `profile`
